@@ -1098,3 +1098,103 @@ func (c *Ctl) Op(v ` + typ + `) error { return nil }
 		symxAssert(err != nil, "C10.front.slice-outside-the-query-is-rejected")
 	}
 }
+
+// C06 through the front end, second shape: form fields, enum / alias / slice parameters, a path parameter bound by alias
+func vh_C06_front_forms_Q() {
+	f1Pointer := symxBool("f1.pointer")
+	f1Required := symxBool("f1.validatedRequired")
+	qType := []string{"[]string", "Color", "ID", "int64", "bool"}[symxChoice("q.type", 5)]
+	alias := symxBool("path.alias")
+	urlName, pathAnn := "id", "// @Path(id)"
+	if alias {
+		urlName, pathAnn = "item-id", `// @Path(id, { name: "item-id" })`
+	}
+	f1Type := "string"
+	if f1Pointer {
+		f1Type = "*string"
+	}
+	f1Ann := "// @FormField(f1)"
+	if f1Required {
+		f1Ann = `// @FormField(f1, { validate: "required" })`
+	}
+	src := `package ctl
+
+import "github.com/gopher-fleece/runtime"
+
+type Color string
+
+const (
+	Red  Color = "red"
+	Blue Color = "blue"
+)
+
+type ID string
+
+// @Route(/c)
+type Ctl struct {
+	runtime.GleeceController
+}
+
+// @Method(PUT)
+// @Route(/op/{` + urlName + `})
+` + pathAnn + `
+// @Query(q, { name: "filter" })
+` + f1Ann + `
+// @FormField(f2, { name: "second" })
+func (c *Ctl) Op(id int, q ` + qType + `, f1 ` + f1Type + `, f2 int) error {
+	return nil
+}
+`
+	fr, err := visitors.VhLoadSource(src, nil)
+	symxAssert(err == nil, "C06.front.fixture-loads")
+	if err != nil {
+		return
+	}
+	meta, err := pipeline.VhNewPipeline(fr, vhFrontConfig()).Run()
+	if err != nil {
+		symxRecord("refused", err.Error())
+	}
+	symxAssert(err == nil, "C06.front.project-is-accepted")
+	if err != nil {
+		return
+	}
+	doc30, doc31 := vhNewDoc30(), vhNewDoc31()
+	cfg := &definitions.OpenAPIGeneratorConfig{}
+	symxAssert(swagen30.GenerateModelsSpec(doc30, &meta.Models) == nil && swagen31.GenerateModelsSpec(doc31, &meta.Models) == nil, "C06.front.models-no-error")
+	symxAssert(swagen30.GenerateControllersSpec(doc30, cfg, meta.Flat) == nil && swagen31.GenerateControllersSpec(doc31, cfg, meta.Flat) == nil, "C06.front.documents-no-error")
+	ops30, ops31 := vhOps30(doc30), vhOps31(doc31)
+	symxAssert(len(ops30) == 1 && len(ops31) == 1 && ops30[0].path == "/c/op/{"+urlName+"}", "C06.front.one-operation-at-the-documented-path")
+	if len(ops30) != 1 || len(ops31) != 1 {
+		return
+	}
+	symxCover("C06.front.forms-documented")
+	wantRef, wantTyp := "", ""
+	switch qType {
+	case "[]string":
+		wantTyp = "array"
+	case "Color", "ID":
+		wantRef = "#/components/schemas/" + qType
+	case "int64":
+		wantTyp = "integer"
+	default:
+		wantTyp = "boolean"
+	}
+	for vi, d := range []vhOpDetail{vhDetail30(&ops30[0]), vhDetail31(&ops31[0])} {
+		ver := []string{"30", "31"}[vi]
+		symxAssert(len(d.params) == 2, "C06.front."+ver+".path-and-query-parameters")
+		if len(d.params) == 2 {
+			symxAssert(d.params[0].name == urlName && d.params[0].in == "path" && d.params[0].required && d.params[0].typ == "integer", "C06.front."+ver+".path-parameter-under-its-wire-name")
+			symxAssert(d.params[1].name == "filter" && d.params[1].in == "query" && d.params[1].required, "C06.front."+ver+".query-parameter-under-its-wire-name")
+			symxAssert(d.params[1].ref == wantRef && d.params[1].typ == wantTyp, "C06.front."+ver+".parameter-schema-of-declared-type")
+		}
+		symxAssert(d.hasBody && d.hasForm && !d.hasJSON, "C06.front."+ver+".form-fields-are-one-urlencoded-object")
+		symxAssert(vhSameStrings(d.formProps, []string{"f1", "second"}), "C06.front."+ver+".form-properties-under-their-wire-names")
+		wantReq := []string{"second"}
+		if !f1Pointer || f1Required {
+			wantReq = []string{"f1", "second"}
+		}
+		symxAssert(vhSameStrings(vhSortStrings(d.formRequired), wantReq), "C06.front."+ver+".form-required-under-the-same-rule")
+		sr := vhRespFind(d.responses, "204")
+		symxAssert(sr != nil && !sr.hasContent && len(d.responses) == 1, "C06.front."+ver+".204-without-content-and-nothing-else")
+	}
+}
